@@ -866,10 +866,25 @@ class List(list, base.Symbolic, pg_typing.CustomTyping):
                 path,
             )
         )
+      # NOTE: compatibility of list specs does not cover `min_size`, which is
+      # not re-checked either when the standard apply is skipped below.
+      if (isinstance(value_spec, pg_typing.List)
+          and len(self) < value_spec.min_size):
+        raise ValueError(
+            utils.message_on_path(
+                f'Length of list {self!r} is less than '
+                f'min size ({value_spec.min_size}).',
+                path,
+            )
+        )
       if self._allow_partial == allow_partial:
         proceed_with_standard_apply = False
       else:
         self._allow_partial = allow_partial
+      if isinstance(value_spec, pg_typing.List):
+        # From now on the list is a value of that field: later mutations must
+        # keep satisfying the field's spec (e.g. its `min_size`).
+        self._value_spec = value_spec
     elif isinstance(value_spec, pg_typing.List):
       self._value_spec = value_spec
     return (proceed_with_standard_apply, self)
